@@ -562,9 +562,13 @@ where
                 let mut r = st.restrict_mut();
                 let mut it = (&mut r).lend_join();
                 let mut ress: Vec<Value> = vec![];
+                // what the item itself carries before and after the lookup of the other entity
+                // (and whether the other entity is the item's own: same value identity)
+                let mut owns: Vec<Value> = vec![];
                 let mut first = true;
                 while let Some(mut item) = it.next() {
-                    ress.push(match item.get_other_mut(e) {
+                    let own_before = item.get().js();
+                    let got = match item.get_other_mut(e) {
                         Some(mut a) => {
                             let before = (&*a).js();
                             if wval >= 0 {
@@ -574,13 +578,17 @@ where
                             if first { before } else { json!([before[0], before[1]]) }
                         }
                         None => absent(),
-                    });
+                    };
+                    let own_after = item.get().js();
+                    let same = got != absent() && got[0] == own_before[0];
+                    owns.push(json!([own_before, own_after, same]));
+                    ress.push(got);
                     first = false;
                 }
                 if ress.is_empty() {
                     json!({"cls":"skip"})
                 } else {
-                    json!({"cls":"write","res": ress[0].clone(), "ress_w": ress})
+                    json!({"cls":"write","res": ress[0].clone(), "ress_w": ress, "owns": owns})
                 }
             }
             // ------------------------------------------------ the whole value replaced through a mutable access
